@@ -19,13 +19,15 @@ PROPERTY = "C19"
 RULE = ("type-directed generator over the Elasticsearch response shapes (bulk, search, scroll, composite-agg pages) plus generic "
         "JSON values; adversarial strings (quotes, backslashes, brackets, 'sort', '\"sort\"', control and non-ASCII characters), "
         "int/float/exponent literals, shuffled key order, 8 whitespace/escaping styles; a case is non-trivial when the document "
-        "has at least one item/hit; signature = (model branch tags, outcome class, shape knobs)")
+        "has at least one item/hit; signature = (model branch tags, outcome class, shape knobs); session streams: 2-6 calls on one "
+        "shared instance / registered runner with varying parameters, non-trivial when the calls differ in path / pit / hits_total / type")
 TRUSTED = [
     "CPython json.loads is the reference full parser (the Lean renderer is validated against it on every document)",
     "ijson 2.6.1 pure-python backend: its event stream is modelled on JSON values and compared with the real library on every generated document",
     "python `re` (`sort\":\\s*` anchored match, Unicode \\s), `str.rfind` and `JSONDecoder.raw_decode` as used by SearchAfterExtractor are modelled by hand",
 ]
 ASSUMPTIONS = [
+    "a task keeps handing out the same params dict / request body (SearchParamSource.params); after an invocation that raised, the task is given fresh parameters",
     "responses are well-formed JSON texts in UTF-8 without duplicate keys on the selected paths; status / took / hits.total / _shards.* are integer literals",
     "Elasticsearch sets `errors` to true iff some bulk item has status > 299 (items that only report failed replica shards do not set it)",
     "top-level / hits / _shards keys are the Elasticsearch vocabulary (no key aliasing a selected dotted path)",
@@ -527,21 +529,24 @@ CALL_SITES = [
 ]
 
 
+def make_parse(rng):
+    doc, kind = gen_any_doc(rng)
+    if rng.random() < 0.6 or kind.startswith("generic"):
+        prefixes = sorted(set(node_prefixes(doc)))
+        pool = prefixes + ["took", "a", "a.b", "hits.hits", "hits.total", "", "item", "a.item", "b"]
+        props = [rng.choice(pool) for _ in range(rng.randrange(0, 4))]
+        lists = [rng.choice(pool) for _ in range(rng.randrange(0, 3))]
+        objs = [rng.choice(pool) for _ in range(rng.randrange(0, 3))]
+        site = "random"
+    else:
+        props, lists, objs = rng.choice(CALL_SITES)
+        site = "call-site"
+    return {"doc": doc, "style": gen_style(rng, 0.6), "props": list(props), "lists": list(lists), "objs": list(objs), "kind": kind, "site": site}
+
+
 def gen_parse(ctx):
-    rng = ctx.rng
     for _ in range(ctx.budget):
-        doc, kind = gen_any_doc(rng)
-        if rng.random() < 0.6 or kind.startswith("generic"):
-            prefixes = sorted(set(node_prefixes(doc)))
-            pool = prefixes + ["took", "a", "a.b", "hits.hits", "hits.total", "", "item", "a.item", "b"]
-            props = [rng.choice(pool) for _ in range(rng.randrange(0, 4))]
-            lists = [rng.choice(pool) for _ in range(rng.randrange(0, 3))]
-            objs = [rng.choice(pool) for _ in range(rng.randrange(0, 3))]
-            site = "random"
-        else:
-            props, lists, objs = rng.choice(CALL_SITES)
-            site = "call-site"
-        yield {"doc": doc, "style": gen_style(rng, 0.6), "props": list(props), "lists": list(lists), "objs": list(objs), "kind": kind, "site": site}
+        yield make_parse(ctx.rng)
 
 
 def run_parse(ctx, case):
@@ -560,7 +565,7 @@ def run_parse(ctx, case):
     i = impl_call(lambda: runner.parse(io.BytesIO(text.encode("utf-8")), list(case["props"]), lists, objs))
     if "err" in i:
         ctx.diff("parse-raised", canon(mod), i)
-        return
+        return None
     if canon(i["ok"]) != canon(mod):
         ctx.diff("parse", canon(mod), canon(i["ok"]))
     # direct oracle: equal to full parsing, wherever the dotted name is unambiguous in the document
@@ -604,19 +609,23 @@ def run_parse(ctx, case):
     ctx.count("site:" + case["site"])
     ctx.sig([m.get("tags"), case["site"], case["kind"], sorted(type(v).__name__ for v in mod.values())[:6], applicable > 0],
             nontrivial=bool(mod))
+    return canon(i["ok"])
 
 
 # ---------------------------------------------------------------------------------------------
 # stream 3: bulk accounting
 # ---------------------------------------------------------------------------------------------
+def make_bulk(rng):
+    doc, info = gen_bulk_doc(rng)
+    n = info["n"]
+    unit_docs = rng.random() < 0.85
+    bulk_size = n if rng.random() < 0.9 else n + rng.choice([1, 5])
+    return {"doc": doc, "style": gen_style(rng, 0.6), "bulk_size": bulk_size, "unit_docs": unit_docs, "info": info}
+
+
 def gen_bulk(ctx):
-    rng = ctx.rng
     for _ in range(ctx.budget):
-        doc, info = gen_bulk_doc(rng)
-        n = info["n"]
-        unit_docs = rng.random() < 0.85
-        bulk_size = n if rng.random() < 0.9 else n + rng.choice([1, 5])
-        yield {"doc": doc, "style": gen_style(rng, 0.6), "bulk_size": bulk_size, "unit_docs": unit_docs, "info": info}
+        yield make_bulk(ctx.rng)
 
 
 def gen_bulk_malformed(ctx):
@@ -669,7 +678,7 @@ def oracle_item_failed(data):
     return data["status"] > 299 or ("_shards" in data and data["_shards"]["failed"] > 0)
 
 
-def run_bulk(ctx, case):
+def run_bulk(ctx, case, b=None):
     from esrally.driver import runner
 
     doc, info = case["doc"], case["info"]
@@ -678,16 +687,18 @@ def run_bulk(ctx, case):
     if full is None:
         return
     m = ctx.model("jsonfast", "bulk", {"doc": doc, "bulk_size": case["bulk_size"], "unit_docs": case["unit_docs"]})
-    b = runner.BulkIndex()
+    b = b if b is not None else runner.BulkIndex()
     unit = "docs" if case["unit_docs"] else "pages"
     si = impl_call(lambda: b.simple_stats(case["bulk_size"], unit, io.BytesIO(text.encode("utf-8"))))
     di = impl_call(lambda: b.detailed_stats({"action-metadata-present": True, "body": "{}\n{}", "bulk-size": case["bulk_size"], "unit": unit}, json.loads(text)))
+    ret = {}
     for name, impl, mod in (("simple", si, m["r"]["simple"]), ("detailed", di, m["r"]["detailed"])):
         if mod.get("err") == "Unsupported":
             ctx.count("out-of-model:" + name)
             continue
         mm = m_except(mod, stats_canon_model)
         ii = m_except(impl, stats_canon_impl)
+        ret[name] = ii
         if mm != ii:
             ctx.diff("bulk-" + name, mm, ii)
         # error details: the set handed to error_description, observed through extract_error_details itself
@@ -739,6 +750,7 @@ def run_bulk(ctx, case):
     ctx.count("flag:" + info["flag_mode"])
     ctx.sig([m.get("tags"), info["flag_mode"], info["shard_fail"], info["any_failed"], case["unit_docs"], min(info["n"], 2)],
             nontrivial=info["n"] > 0)
+    return ret
 
 
 
@@ -761,15 +773,18 @@ def gen_cursor_knobs(rng):
     return kn
 
 
+def make_cursor(rng):
+    kn = gen_cursor_knobs(rng)
+    pit = rng.random() < 0.3
+    doc = gen_search_doc(rng, kn, pit=pit and rng.random() < 0.9, with_sort=rng.random() < 0.93)
+    style = gen_style(rng, 0.75)
+    ht = None if rng.random() < 0.6 else N(rng.choice([0, 3, 10000]))
+    return {"doc": doc, "style": style, "pit": pit, "hits_total": ht, "knobs": kn}
+
+
 def gen_cursor(ctx):
-    rng = ctx.rng
     for _ in range(ctx.budget):
-        kn = gen_cursor_knobs(rng)
-        pit = rng.random() < 0.3
-        doc = gen_search_doc(rng, kn, pit=pit and rng.random() < 0.9, with_sort=rng.random() < 0.93)
-        style = gen_style(rng, 0.75)
-        ht = None if rng.random() < 0.6 else N(rng.choice([0, 3, 10000]))
-        yield {"doc": doc, "style": style, "pit": pit, "hits_total": ht, "knobs": kn}
+        yield make_cursor(ctx.rng)
 
 
 def expected_last_sort(full):
@@ -832,19 +847,23 @@ def oracle_page_props(full, pit, hits_total):
     return exp
 
 
-def run_cursor(ctx, case):
+def conv_sax_model(r):
+    return [canon(m_dict(r[0])), canon(None if r[1] is None else m_doc(r[1][0]))]
+
+
+def run_cursor(ctx, case, ex=None):
     from esrally.driver import runner
 
     doc, style, pit = case["doc"], case["style"], case["pit"]
     text, _ = render(ctx, doc, style)
     full = check_render(ctx, doc, text)
     if full is None:
-        return
+        return None
     ht = None if case["hits_total"] is None else int(case["hits_total"]["n"])
     m = ctx.model("jsonfast", "search_after_extract", {"doc": doc, "style": style, "pit": pit, "hits_total": case["hits_total"]})
-    ex = runner.SearchAfterExtractor()
+    ex = ex if ex is not None else runner.SearchAfterExtractor()
     i = impl_call(lambda: ex(io.BytesIO(text.encode("utf-8")), pit, ht))
-    mm = m_except(m["r"], lambda r: [canon(m_dict(r[0])), canon(None if r[1] is None else m_doc(r[1][0]))])
+    mm = m_except(m["r"], conv_sax_model)
     ii = m_except(i, lambda r: [canon(r[0]), canon(r[1])])
     if m["r"].get("err") == "Unsupported":
         ctx.count("out-of-model")
@@ -868,23 +887,27 @@ def run_cursor(ctx, case):
     ctx.count("cls:" + case["knobs"]["cls"])
     ctx.sig([m.get("tags"), case["knobs"]["cls"], pit, ht is None, bool(style.get("before_colon")), exp_sort is None],
             nontrivial=bool(full.get("hits", {}).get("hits")))
+    return ii
 
 
 # ---------------------------------------------------------------------------------------------
 # stream 5: CompositeAggExtractor
 # ---------------------------------------------------------------------------------------------
+def make_composite(rng):
+    path = rng.choice([["c"], ["f", "c"], ["my_agg"], ["a", "b", "c"]])
+    kn = {"nulls": rng.random() < 0.25, "shuffle": rng.choice([0.0, 0.0, 0.6])}
+    pit = rng.random() < 0.3
+    doc = gen_composite_doc(rng, path, kn, last=rng.random() < 0.2, pit=pit and rng.random() < 0.9)
+    ht = None if rng.random() < 0.6 else N(rng.choice([0, 3, 10000]))
+    return {"doc": doc, "style": gen_style(rng, 0.6), "pit": pit, "path": path, "hits_total": ht, "knobs": kn}
+
+
 def gen_composite(ctx):
-    rng = ctx.rng
     for _ in range(ctx.budget):
-        path = rng.choice([["c"], ["f", "c"], ["my_agg"], ["a", "b", "c"]])
-        kn = {"nulls": rng.random() < 0.25, "shuffle": rng.choice([0.0, 0.0, 0.6])}
-        pit = rng.random() < 0.3
-        doc = gen_composite_doc(rng, path, kn, last=rng.random() < 0.2, pit=pit and rng.random() < 0.9)
-        ht = None if rng.random() < 0.6 else N(rng.choice([0, 3, 10000]))
-        yield {"doc": doc, "style": gen_style(rng, 0.6), "pit": pit, "path": path, "hits_total": ht, "knobs": kn}
+        yield make_composite(ctx.rng)
 
 
-def run_composite(ctx, case):
+def run_composite(ctx, case, ex=None):
     from esrally.driver import runner
 
     doc, style, pit, path = case["doc"], case["style"], case["pit"], case["path"]
@@ -894,7 +917,7 @@ def run_composite(ctx, case):
         return
     ht = None if case["hits_total"] is None else int(case["hits_total"]["n"])
     m = ctx.model("jsonfast", "composite_extract", {"doc": doc, "pit": pit, "path": path, "hits_total": case["hits_total"]})
-    ex = runner.CompositeAggExtractor()
+    ex = ex if ex is not None else runner.CompositeAggExtractor()
     i = impl_call(lambda: ex(io.BytesIO(text.encode("utf-8")), pit, list(path), ht))
     mm = m_except(m["r"], lambda r: canon(m_dict(r)))
     ii = m_except(i, canon)
@@ -918,6 +941,7 @@ def run_composite(ctx, case):
         if loose(got) != loose(exp):
             ctx.fail("page-props-differ", "extracted page properties differ from full parsing", loose(exp), loose(got))
     ctx.sig([m.get("tags"), len(path), pit, ht is None, case["knobs"]["nulls"], "after_key" in json.dumps(doc)], nontrivial=True)
+    return ii
 
 
 # ---------------------------------------------------------------------------------------------
@@ -932,12 +956,20 @@ class FakeEs:
         self.texts = list(texts)
         self.requests = []
         self.cleared = []
+        self.raw = False
 
     def options(self, **kw):
         return self
 
     def return_raw_response(self):
-        pass
+        self.raw = True
+
+    async def bulk(self, params=None, **kw):
+        raw, self.raw = self.raw, False
+        if not self.texts:
+            raise Exhausted()
+        t = self.texts.pop(0)
+        return io.BytesIO(t.encode("utf-8")) if raw else json.loads(t)
 
     async def perform_request(self, method=None, path=None, params=None, body=None, headers=None, **kw):
         self.requests.append({"path": path, "body": json.loads(json.dumps(body, default=_ser)) if body is not None else None})
@@ -955,18 +987,26 @@ def _ser(o):
     raise TypeError(type(o).__name__)
 
 
-def run_query(params, texts, pit_id=None):
+def run_query(params, texts, pit_id=None, registered=None):
+    """one invocation of a runner against a fake ES serving `texts`; `registered` = the runner Rally registered for the
+    operation type (shared instance, called as the driver does: context manager + cluster dict), else a fresh Query"""
     from esrally.driver import runner
 
     es = FakeEs(texts)
-    q = runner.Query()
+    q = runner.Query() if registered is None else None
+
+    async def call():
+        if registered is None:
+            return await q(es, params)
+        async with registered:
+            return await registered({"default": es}, params)
 
     async def go():
         if pit_id is not None:
             async with runner.CompositeContext():
                 runner.CompositeContext.put("open-pit", pit_id)
-                return await q(es, params)
-        return await q(es, params)
+                return await call()
+        return await call()
 
     loop = asyncio.new_event_loop()
     try:
@@ -977,6 +1017,30 @@ def run_query(params, texts, pit_id=None):
 
 
 BIG = 10**9
+ABSENT = "<absent>"
+
+
+def m_tag(v):
+    """tagged document coming back from the model -> tagged document that can be sent to the model again"""
+    if v is None or isinstance(v, bool):
+        return v
+    if isinstance(v, str):
+        return dec(v)
+    if isinstance(v, list):
+        return [m_tag(x) for x in v]
+    if "n" in v:
+        return {"n": dec(v["n"])}
+    if "d" in v:
+        return {"d": [[dec(k), m_tag(x)] for k, x in v["d"]]}
+    return {"o": [[dec(k), m_tag(x)] for k, x in v["o"]]}
+
+
+def box_in(b):
+    return None if b is None else {"v": m_tag(b["v"])}
+
+
+def box_py(b, conv):
+    return ABSENT if b is None else conv(b["v"])
 
 
 def gen_scroll(ctx):
@@ -1022,7 +1086,8 @@ def oracle_scroll(fulls, size, pages_param):
     return {"weight": pages, "pages": pages, "hits": hits, "hits_relation": rel, "unit": "pages", "timed_out": timed_out, "took": took}
 
 
-def run_scroll(ctx, case):
+def run_scroll(ctx, case, env=None):
+    env = env if env is not None else {}
     texts, fulls = [], []
     for d in case["docs"]:
         t, _ = render(ctx, d, case["style"])
@@ -1030,10 +1095,13 @@ def run_scroll(ctx, case):
         fulls.append(check_render(ctx, d, t))
     pages_n = BIG if case["pages"] == "all" else int(case["pages"])
     m = ctx.model("jsonfast", "scroll_query", {"docs": case["docs"], "size": case["size"], "pages": pages_n})
-    params = {"operation-type": "scroll-search", "index": "idx", "body": {"query": {"match_all": {}}}, "pages": case["pages"]}
-    if case["size"] is not None:
-        params["results-per-page"] = case["size"]
-    i, es = run_query(params, texts)
+    params = env.get("params")
+    if params is None:
+        params = {"operation-type": "scroll-search", "index": "idx", "body": {"query": {"match_all": {}}}, "pages": case["pages"]}
+        if case["size"] is not None:
+            params["results-per-page"] = case["size"]
+        env["params"] = params
+    i, es = run_query(params, texts, registered=env.get("runner"))
     mm = m_except(m["r"], lambda r: {"weight": r["pages"], "pages": r["pages"], "hits": canon(m_val(r["hits"])), "hits_relation": canon(m_val(r["hits_relation"])),
                                       "unit": "pages", "timed_out": canon(m_val(r["timed_out"])), "took": canon(m_val(r["took"]))})
     ii = m_except(i, lambda r: {k: (canon(v) if k in ("hits", "hits_relation", "timed_out", "took") else v) for k, v in r.items()})
@@ -1082,7 +1150,8 @@ def gen_sa(ctx):
         yield {"docs": docs, "style": style, "size": size, "pages": pages_param, "pit": pit, "knobs": kn}
 
 
-def run_sa(ctx, case):
+def run_sa(ctx, case, env=None):
+    env = env if env is not None else {}
     texts, fulls = [], []
     for d in case["docs"]:
         t, _ = render(ctx, d, case["style"])
@@ -1090,12 +1159,33 @@ def run_sa(ctx, case):
         fulls.append(check_render(ctx, d, t))
     pages_n = BIG if case["pages"] == "all" else int(case["pages"])
     pit = case["pit"]
-    m = ctx.model("jsonfast", "sa_query", {"docs": case["docs"], "style": case["style"], "pit": pit, "size": case["size"], "pages": pages_n})
-    params = {"operation-type": "paginated-search", "index": "idx", "body": {"query": {"match_all": {}}, "sort": [{"ts": "asc"}]},
-              "pages": case["pages"], "results-per-page": case["size"]}
-    if pit:
-        params["with-point-in-time-from"] = "open-pit"
-    i, es = run_query(params, texts, pit_id="pit-0" if pit else None)
+    mfull = ctx.model("jsonfast", "sa_query", {"docs": case["docs"], "style": case["style"], "pit": pit, "size": case["size"], "pages": pages_n,
+                                               "left": env.get("left")})
+    m = {"r": mfull["r"]["res"], "tags": mfull.get("tags")}
+    params = env.get("params")
+    if params is None:
+        params = {"operation-type": "paginated-search", "index": "idx", "body": {"query": {"match_all": {}}, "sort": [{"ts": "asc"}]},
+                  "pages": case["pages"], "results-per-page": case["size"]}
+        if pit:
+            params["with-point-in-time-from"] = "open-pit"
+        env["params"] = params
+    i, es = run_query(params, texts, pit_id="pit-0" if pit else None, registered=env.get("runner"))
+    # state carried in the shared request body: cursor of the first request / cursor left behind
+    if es.requests:
+        first = es.requests[0]["body"].get("search_after", ABSENT)
+        mfirst = box_py(mfull["r"]["first"], lambda v: None if v is None else m_doc(v))
+        if canon(first) != canon(mfirst):
+            ctx.diff("search-after-first-request-cursor", canon(mfirst), canon(first))
+    if "ok" in m["r"] and "ok" in i:
+        left_now = params["body"].get("search_after", ABSENT)
+        mleft = box_py(mfull["r"]["left_after"], lambda v: None if v is None else m_doc(v))
+        if canon(json.loads(json.dumps(left_now, default=_ser))) != canon(mleft):
+            ctx.diff("search-after-cursor-left-in-body", canon(mleft), canon(left_now))
+        env["left"] = box_in(mfull["r"]["left_after"])
+        if env["left"] is not None:
+            ctx.count("outside-property:cursor-left-in-shared-body")
+    else:
+        env["reset"] = True
 
     def mconv(r):
         if r["pages"] == 0:
@@ -1182,10 +1272,11 @@ def dig_after(body, path):
     node = body
     for name in path:
         node = (node.get("aggs") or node.get("aggregations"))[name]
-    return node["composite"].get("after", "<absent>")
+    return node["composite"].get("after", ABSENT)
 
 
-def run_ca(ctx, case):
+def run_ca(ctx, case, env=None):
+    env = env if env is not None else {}
     texts, fulls = [], []
     for d in case["docs"]:
         t, _ = render(ctx, d, case["style"])
@@ -1193,11 +1284,30 @@ def run_ca(ctx, case):
         fulls.append(check_render(ctx, d, t))
     path, pit = case["path"], case["pit"]
     pages_n = BIG if case["pages"] == "all" else int(case["pages"])
-    m = ctx.model("jsonfast", "ca_query", {"docs": case["docs"], "pit": pit, "path": path, "pages": pages_n})
-    params = {"operation-type": "composite-agg", "index": "idx", "body": comp_body(path), "pages": case["pages"]}
-    if pit:
-        params["with-point-in-time-from"] = "open-pit"
-    i, es = run_query(params, texts, pit_id="pit-0" if pit else None)
+    mfull = ctx.model("jsonfast", "ca_query", {"docs": case["docs"], "pit": pit, "path": path, "pages": pages_n, "left": env.get("left")})
+    m = {"r": mfull["r"]["res"], "tags": mfull.get("tags")}
+    params = env.get("params")
+    if params is None:
+        params = {"operation-type": "composite-agg", "index": "idx", "body": comp_body(path), "pages": case["pages"]}
+        if pit:
+            params["with-point-in-time-from"] = "open-pit"
+        env["params"] = params
+    i, es = run_query(params, texts, pit_id="pit-0" if pit else None, registered=env.get("runner"))
+    if es.requests:
+        first = dig_after(es.requests[0]["body"], path)
+        mfirst = box_py(mfull["r"]["first"], m_val)
+        if loose(first) != loose(mfirst):
+            ctx.diff("composite-first-request-after", loose(mfirst), loose(first))
+    if "ok" in m["r"] and "ok" in i:
+        left_now = dig_after(params["body"], path)
+        mleft = box_py(mfull["r"]["left_after"], m_val)
+        if loose(left_now) != loose(mleft):
+            ctx.diff("composite-after-left-in-body", loose(mleft), loose(left_now))
+        env["left"] = box_in(mfull["r"]["left_after"])
+        if env["left"] is not None:
+            ctx.count("outside-property:cursor-left-in-shared-body")
+    else:
+        env["reset"] = True
 
     def mconv(r):
         if r["pages"] == 0:
@@ -1243,12 +1353,16 @@ def gen_rb(ctx):
         yield {"doc": gen_search_doc(rng, kn), "style": gen_style(rng, 0.5), "knobs": kn}
 
 
-def run_rb(ctx, case):
+def run_rb(ctx, case, env=None):
+    env = env if env is not None else {}
     text, _ = render(ctx, case["doc"], case["style"])
     full = check_render(ctx, case["doc"], text)
     m = ctx.model("jsonfast", "rb_detailed", {"doc": case["doc"]})
-    params = {"operation-type": "search", "index": "idx", "body": {"query": {"match_all": {}}}, "detailed-results": True}
-    i, _es = run_query(params, [text])
+    params = env.get("params")
+    if params is None:
+        params = {"operation-type": "search", "index": "idx", "body": {"query": {"match_all": {}}}, "detailed-results": True}
+        env["params"] = params
+    i, _es = run_query(params, [text], registered=env.get("runner"))
     r = m["r"]
     mm = {"ok": {"weight": 1, "unit": "ops", "success": True, "hits": canon(m_val(r["hits"])), "hits_relation": canon(m_val(r["hits_relation"])),
                  "timed_out": canon(m_val(r["timed_out"])), "took": canon(m_val(r["took"])),
@@ -1325,6 +1439,194 @@ def run_text(ctx, case):
     ctx.sig([m.get("tags"), m2.get("tags"), len(case["muts"])], nontrivial=True)
 
 
+# ---------------------------------------------------------------------------------------------
+# stream 8: SEQUENCES of calls on the SAME extractor / BulkIndex instance (state carried between calls)
+# every call must equal the model's answer for that call alone (theorems *_session: a session is the map of the
+# independent calls) and the full-parse oracle of that call
+# ---------------------------------------------------------------------------------------------
+def gen_extractor_sessions(ctx):
+    rng = ctx.rng
+    for _ in range(ctx.budget):
+        kind = rng.choice(["cax", "cax", "sax", "bulk", "parse"])
+        n = rng.choice([2, 2, 3, 4, 5])
+        style = gen_style(rng, 0.7)
+        calls = []
+        for _k in range(n):
+            if kind == "cax":
+                c = make_composite(rng)
+            elif kind == "sax":
+                c = make_cursor(rng)
+            elif kind == "bulk":
+                c = make_bulk(rng)
+                c["detailed"] = rng.random() < 0.5
+            else:
+                c = make_parse(rng)
+            c["style"] = style
+            calls.append(c)
+        yield {"kind": kind, "style": style, "calls": calls}
+
+
+def run_extractor_session(ctx, case):
+    from esrally.driver import runner
+
+    kind, calls = case["kind"], case["calls"]
+    got = []
+    if kind == "cax":
+        ex = runner.CompositeAggExtractor()
+        for c in calls:
+            got.append(run_composite(ctx, c, ex))
+        m = ctx.model("jsonfast", "cax_session", {"calls": [{"doc": c["doc"], "pit": c["pit"], "path": c["path"], "hits_total": c["hits_total"]} for c in calls]})
+        exp = [m_except(r, lambda x: canon(m_dict(x))) for r in m["r"]]
+    elif kind == "sax":
+        ex = runner.SearchAfterExtractor()
+        for c in calls:
+            got.append(run_cursor(ctx, c, ex))
+        m = ctx.model("jsonfast", "sax_session", {"style": case["style"], "calls": [{"doc": c["doc"], "pit": c["pit"], "hits_total": c["hits_total"]} for c in calls]})
+        exp = [m_except(r, conv_sax_model) for r in m["r"]]
+    elif kind == "bulk":
+        b = runner.BulkIndex()
+        for c in calls:
+            r = run_bulk(ctx, c, b)
+            got.append(None if r is None else r.get("detailed" if c["detailed"] else "simple"))
+        m = ctx.model("jsonfast", "bulk_session", {"calls": [{"doc": c["doc"], "detailed": c["detailed"], "bulk_size": c["bulk_size"], "unit_docs": c["unit_docs"]} for c in calls]})
+        exp = [m_except(r, stats_canon_model) for r in m["r"]]
+    else:
+        for c in calls:
+            got.append(run_parse(ctx, c))
+        m = ctx.model("jsonfast", "parse_session", {"calls": [{"doc": c["doc"], "props": c["props"], "lists": c["lists"], "objs": c["objs"]} for c in calls]})
+        exp = [canon(m_dict(r)) for r in m["r"]]
+    for k, (g, e) in enumerate(zip(got, exp)):
+        if g is None or (isinstance(e, dict) and e.get("err") == "Unsupported"):
+            continue
+        if g != e:
+            ctx.diff(f"session-{kind}-call-{k}", e, g)
+    varied = len({json.dumps([c.get("path"), c.get("pit"), c.get("hits_total") is None, c.get("detailed"), c.get("props")], sort_keys=True) for c in calls})
+    ctx.count("session:" + kind)
+    ctx.sig([kind, len(calls), min(varied, 3)], nontrivial=varied > 1)
+
+
+# ---------------------------------------------------------------------------------------------
+# stream 9: the runners Rally REGISTERS (one instance per operation type), driven as the driver does, through
+# several invocations of several tasks that share the instance; every task keeps its own params dict / request
+# body across invocations (as SearchParamSource does)
+# ---------------------------------------------------------------------------------------------
+def make_ops(rng, style):
+    ops = []
+    paths = [["c"], ["f", "c"], ["my_agg"], ["a", "b", "c"], ["c2"]]
+    rng.shuffle(paths)
+    ncomp = rng.choice([0, 1, 2, 2, 2, 3])
+    for k in range(ncomp):
+        ops.append({"type": "composite-agg", "path": paths[k], "pit": rng.random() < 0.3, "pages": rng.choice(["all", "all", 1, 2, 3]), "style": style})
+    for _ in range(rng.choice([0, 1, 2])):
+        ops.append({"type": "paginated-search", "pit": rng.random() < 0.35, "size": rng.choice([1, 2, 3, 10]), "pages": rng.choice(["all", 1, 2, 3]), "style": style})
+    if rng.random() < 0.4:
+        ops.append({"type": "scroll-search", "size": rng.choice([None, 1, 2, 10]), "pages": rng.choice(["all", 1, 2, 3]), "style": style})
+    if rng.random() < 0.4:
+        ops.append({"type": "search", "style": style})
+    if rng.random() < 0.5 or not ops:
+        ops.append({"type": "bulk", "style": style})
+    return ops
+
+
+def make_invocation(rng, op):
+    t = op["type"]
+    if t == "composite-agg":
+        npages = rng.choice([1, 2, 3, 4])
+        kn = {"nulls": rng.random() < 0.15, "shuffle": rng.choice([0.0, 0.0, 0.6])}
+        docs = [gen_composite_doc(rng, op["path"], kn, last=(k == npages - 1 and rng.random() < 0.8), total=5, pit=op["pit"]) for k in range(npages)]
+        return {"docs": docs, "style": op["style"], "path": op["path"], "pages": op["pages"], "pit": op["pit"], "knobs": kn}
+    if t == "paginated-search":
+        size = op["size"]
+        npages = rng.choice([1, 2, 3, 4])
+        total = rng.choice([0, 1, size, size + 1, 2 * size, 2 * size + 1, 3 * size, 10000])
+        kn = {"shuffle": 0.0, "adversarial_source": rng.random() < 0.4, "cls": "clean"}
+        if rng.random() < 0.1:
+            kn.update(later_token=True, cls="later")
+        docs = [gen_search_doc(rng, kn, nhits=rng.choice([1, 2, size]), total=total, es6=False, pit=op["pit"]) for _ in range(npages)]
+        return {"docs": docs, "style": op["style"], "size": size, "pages": op["pages"], "pit": op["pit"], "knobs": kn}
+    if t == "scroll-search":
+        npages = rng.choice([1, 2, 3])
+        total = rng.choice([0, 1, 3, 25])
+        kn = {"shuffle": 0.0, "adversarial_source": rng.random() < 0.3}
+        docs = []
+        for k in range(npages):
+            nh = 0 if ((k == npages - 1 and k > 0 and rng.random() < 0.8) or (k == 0 and total == 0)) else rng.choice([1, 2, 3])
+            docs.append(gen_search_doc(rng, kn, nhits=nh, total=total, scroll=True, with_sort=False))
+        return {"docs": docs, "style": op["style"], "size": op["size"], "pages": op["pages"], "knobs": kn}
+    if t == "search":
+        kn = {"shuffle": rng.choice([0.0, 0.6]), "adversarial_source": rng.random() < 0.5}
+        return {"doc": gen_search_doc(rng, kn), "style": op["style"], "knobs": kn}
+    c = make_bulk(rng)
+    c["style"] = op["style"]
+    c["detailed"] = rng.random() < 0.5
+    return c
+
+
+def gen_query_sessions(ctx):
+    rng = ctx.rng
+    for _ in range(ctx.budget):
+        style = gen_style(rng, 0.85)
+        if style.get("before_colon"):
+            style = {}
+        ops = make_ops(rng, style)
+        n = rng.choice([2, 3, 4, 5, 6])
+        order = [k % len(ops) for k in range(n)] if rng.random() < 0.5 else [rng.randrange(len(ops)) for _ in range(n)]
+        yield {"ops": ops, "seq": [{"op": k, "inv": make_invocation(rng, ops[k])} for k in order]}
+
+
+def run_bulk_runner(ctx, case, env):
+    """BulkIndex.__call__ of the registered runner (detailed-results on / off) against the stats it must report"""
+    text, _ = render(ctx, case["doc"], case["style"])
+    check_render(ctx, case["doc"], text)
+    unit = "docs" if case["unit_docs"] else "pages"
+    params = {"body": "{}\n{}", "bulk-size": case["bulk_size"], "unit": unit, "action-metadata-present": True, "index": "idx",
+              "detailed-results": case["detailed"]}
+    i, _es = run_query(params, [text], registered=env.get("runner"))
+    m = ctx.model("jsonfast", "bulk", {"doc": case["doc"], "bulk_size": case["bulk_size"], "unit_docs": case["unit_docs"]})
+    mod = m["r"]["detailed" if case["detailed"] else "simple"]
+    if mod.get("err") == "Unsupported":
+        ctx.count("out-of-model:bulk-runner")
+        return
+    mm = m_except(mod, stats_canon_model)
+    if "ok" in mm and not mm["ok"]["success"]:
+        mm["ok"]["error-type"] = "bulk"
+    if "ok" in mm:
+        mm["ok"].update(index="idx", weight=case["bulk_size"], unit=unit)
+    ii = m_except(i, lambda r: dict(stats_canon_impl(r), index=r.get("index"), weight=r.get("weight"), unit=r.get("unit"),
+                                    **({"error-type": r["error-type"]} if "error-type" in r else {})))
+    if mm != ii:
+        ctx.diff("bulk-runner-call", mm, ii)
+
+
+def run_query_session(ctx, case):
+    from esrally.driver import runner
+
+    runner.register_default_runners()
+    envs = [{"runner": runner.runner_for(op["type"])} for op in case["ops"]]
+    seen = []
+    for step in case["seq"]:
+        op, env, inv = case["ops"][step["op"]], envs[step["op"]], step["inv"]
+        t = op["type"]
+        if t == "composite-agg":
+            run_ca(ctx, inv, env)
+        elif t == "paginated-search":
+            run_sa(ctx, inv, env)
+        elif t == "scroll-search":
+            run_scroll(ctx, inv, env)
+        elif t == "search":
+            run_rb(ctx, inv, env)
+        else:
+            run_bulk(ctx, inv)
+            run_bulk_runner(ctx, inv, env)
+        if env.pop("reset", False):
+            # an invocation that raised leaves the body in a state that is not modelled: the task gets fresh parameters
+            env.pop("params", None)
+            env["left"] = None
+        seen.append(t + ":" + ".".join(op.get("path", [])))
+    ctx.sig([sorted(set(seen)), len(case["seq"])], nontrivial=len(set(seen)) > 1)
+    ctx.count("query-session-ops:" + str(len(set(seen))))
+
+
 STREAMS = [
     Stream("ijson_events", gen_events, run_events, quick=1500, thorough=150000),
     Stream("parse", gen_parse, run_parse, quick=2500, thorough=250000),
@@ -1337,4 +1639,6 @@ STREAMS = [
     Stream("composite_query", gen_ca, run_ca, quick=500, thorough=30000),
     Stream("request_body_query", gen_rb, run_rb, quick=600, thorough=40000),
     Stream("raw_text", gen_text, run_text, quick=2500, thorough=250000),
+    Stream("extractor_sessions", gen_extractor_sessions, run_extractor_session, quick=1200, thorough=60000),
+    Stream("query_sessions", gen_query_sessions, run_query_session, quick=500, thorough=20000),
 ]
